@@ -2,11 +2,8 @@
 //! See /verif/DESIGN.md. Usage:
 //!   cfdp-verif check <ID> <quick|thorough>
 //!   cfdp-verif replay <file.json>
-mod common;
-mod props;
-mod wire;
-
-use common::*;
+use cfdp_verif::common::*;
+use cfdp_verif::props;
 
 fn main() {
     let args: Vec<String> = std::env::args().collect();
@@ -23,6 +20,7 @@ fn main() {
                 _ => Tier::Quick,
             };
             init_scratch();
+            start_watchdog(300);
             let mut ctx = Ctx::new(&id, tier, seed);
             if !props::run_property(&mut ctx) {
                 eprintln!("unknown property {id}");
